@@ -3543,15 +3543,11 @@ type Measurement struct {
 
 // Clone returns a deep clone of the Measurement.
 func (m *Measurement) Clone() *Measurement {
-	var regexp *RegexLiteral
-	if m.Regex != nil && m.Regex.Val != nil {
-		regexp = &RegexLiteral{Val: m.Regex.Val.Copy()}
-	}
 	return &Measurement{
 		Database:        m.Database,
 		RetentionPolicy: m.RetentionPolicy,
 		Name:            m.Name,
-		Regex:           regexp,
+		Regex:           CloneRegexLiteral(m.Regex),
 		IsTarget:        m.IsTarget,
 		SystemIterator:  m.SystemIterator,
 	}
